@@ -93,6 +93,11 @@ class VLoop(asyncio.SelectorEventLoop):
     def run_in_executor(self, executor, func, *args):
         fut = self.create_future()
         try:
+            from concurrent.futures import ProcessPoolExecutor
+            if isinstance(executor, ProcessPoolExecutor):
+                # work for a process pool travels by pickle: what cannot be pickled (lambdas, closures) fails as it would there
+                import pickle
+                pickle.dumps((func, args))
             fut.set_result(func(*args))
         except Exception as e:  # noqa: BLE001
             fut.set_exception(e)
